@@ -78,7 +78,14 @@ def run(ctx):
         for (doc, g, _), r in zip(batch, reps):
             before = canon(g.asdict())
             idx_before = index_of(g)
-            g2 = g.in_generations()
+            try:
+                g2 = g.in_generations()
+            except Exception as e:  # noqa: BLE001 - the conversion of a valid graph must exist
+                ctx.count(show(before), True, tags=["raised"])
+                ctx.violation(f"in_generations: raises {type(e).__name__} on a valid graph ({str(e)[:80]})", {"document": doc},
+                              python=py_repro(doc, "g.in_generations().asdict()"))
+                outs.append(g)
+                continue
             outs.append(g2)
             ctx.count(show(before), g.generation_time != 1, tags=[f"generation_time={g.generation_time}", g.time_units])
             ctx.compared += 1
